@@ -517,7 +517,7 @@ class Interp:
         return self._call_spec1(f, args, kwargs, bool(assumed), proving)
 
     def _call_spec1(self, f, args, kwargs, assumed, proving):
-        ab = self.reg.abstractions.get(f) if isinstance(f, types.FunctionType) else None
+        ab = getattr(self.reg, 'abstractions', {}).get(f) if isinstance(f, types.FunctionType) else None
         if ab is not None and ab[0](self):
             return ab[1](self, list(args), kwargs)
         if isinstance(f, Closure) and _is_spec_file(f.info.filename):
@@ -537,7 +537,7 @@ class Interp:
         if not isinstance(func, types.FunctionType):
             # e.g. builtin method bound via BoundMethod
             return self.call_native(func, args, kwargs)
-        ab = self.reg.abstractions.get(func)
+        ab = getattr(self.reg, 'abstractions', {}).get(func)
         if ab is not None and ab[0](self):
             return ab[1](self, list(args), kwargs)
         # contract?
